@@ -73,8 +73,10 @@ def sweep_impl(rep, tier, seed):
             blk = FilterbankBlock(data, base_header(nchans, 32, nsamps))
             p = os.path.join(tmp, "blk.fil")
             rep.case(("to_file", nchans, nsamps))
-            blk.to_file(p)
-            back = FilReader(p).read_block(0, nsamps)
+            back = rep.guard(lambda: (blk.to_file(p), FilReader(p).read_block(0, nsamps))[1], "block.to_file / read_block raised",
+                             function="block.py::FilterbankBlock.to_file", input=dict(nchans=nchans, nsamps=nsamps))
+            if back is None:
+                continue
             rep.check(np.array_equal(back.data, data), "block.to_file / read_block round trip", function="block.py::FilterbankBlock.to_file",
                       input=dict(nchans=nchans, nsamps=nsamps))
         # ---- time series: .tim and .dat/.inf
@@ -82,16 +84,20 @@ def sweep_impl(rep, tier, seed):
             x = rng.normal(0, 3, n).astype(np.float32)
             tim = TimeSeries(x, base_header(1, 32, n, data_type="time series"))
             rep.case(("tim", n))
-            p = tim.to_tim(os.path.join(tmp, "a.tim"))
-            back = TimeSeries.from_tim(p)
+            back = rep.guard(lambda: TimeSeries.from_tim(tim.to_tim(os.path.join(tmp, "a.tim"))), ".tim round trip raised",
+                             function="timeseries.py::TimeSeries.to_tim", input=dict(n=n))
+            if back is None:
+                continue
             rep.check(np.array_equal(back.data, x) and back.header.nsamples == n, ".tim round trip", function="timeseries.py::TimeSeries.to_tim",
                       input=dict(n=n), observed=back.data[:8], required=x[:8])
             rep.check(abs(back.header.tsamp - tim.header.tsamp) < 1e-15 and abs(back.header.tstart - tim.header.tstart) < 6e-11
                       and abs(back.header.dm - tim.header.dm) < 1e-12, ".tim timing metadata", function="timeseries.py::TimeSeries.to_tim",
                       input=dict(n=n))
             rep.case(("dat", n))
-            d = tim.to_dat(os.path.join(tmp, "b"))
-            back = TimeSeries.from_dat(d)
+            back = rep.guard(lambda: TimeSeries.from_dat(tim.to_dat(os.path.join(tmp, "b"))), ".dat/.inf round trip raised",
+                             function="timeseries.py::TimeSeries.to_dat", input=dict(n=n))
+            if back is None:
+                continue
             rep.check(back.data.shape == x.shape and np.array_equal(back.data, x), ".dat/.inf round trip (samples)",
                       function="timeseries.py::TimeSeries.to_dat", input=dict(n=n), observed=dict(n=int(back.data.size), head=back.data[:6]),
                       required=dict(n=n, head=x[:6]))
@@ -103,13 +109,17 @@ def sweep_impl(rep, tier, seed):
             z = (rng.normal(0, 1, n) + 1j * rng.normal(0, 1, n)).astype(np.complex64)
             fs = FourierSeries(z, base_header(1, 32, 2 * (n - 1) if n > 1 else 1, data_type="time series"))
             rep.case(("spec", n))
-            p = fs.to_spec(os.path.join(tmp, "a.spec"))
-            back = FourierSeries.from_spec(p)
+            back = rep.guard(lambda: FourierSeries.from_spec(fs.to_spec(os.path.join(tmp, "a.spec"))), ".spec round trip raised",
+                             function="fourierseries.py::FourierSeries.to_spec", input=dict(n=n))
+            if back is None:
+                continue
             rep.check(np.array_equal(back.data, z), ".spec round trip", function="fourierseries.py::FourierSeries.to_spec", input=dict(n=n),
                       observed=back.data[:4], required=z[:4])
             rep.case(("fft", n))
-            p = fs.to_fft(os.path.join(tmp, "c"))
-            back = FourierSeries.from_fft(p)
+            back = rep.guard(lambda: FourierSeries.from_fft(fs.to_fft(os.path.join(tmp, "c"))), ".fft/.inf round trip raised",
+                             function="fourierseries.py::FourierSeries.to_fft", input=dict(n=n))
+            if back is None:
+                continue
             rep.check(np.array_equal(back.data, z), ".fft/.inf round trip", function="fourierseries.py::FourierSeries.to_fft", input=dict(n=n))
             rep.check(abs(back.header.tsamp - fs.header.tsamp) < 1e-12 and abs(back.header.tstart - fs.header.tstart) < 6e-11,
                       ".fft/.inf timing metadata", function="header.py::Header.make_inf", input=dict(n=n),
